@@ -7,7 +7,8 @@ ASSUME_COMMON = [
 ]
 
 LOOP_RULE = ("TLC enumerates (policy recipe, token sequence) of family fam_loop*: hist = every tokenizer-realisable history up to MaxLen, "
-             "cover = one witness history per transition of the history-free quotient graph; each case is serialised in `variants` "
+             "cover = one witness history per transition of the history-free quotient graph, nest*/nestw*/nestx* = reduced alphabets to greater depth "
+             "(nestw, nestx: only prefixes of well-nested documents that still close within MaxLen, every complete document emitted); each case is serialised in `variants` "
              "syntactic variants and run through the real Sanitize with hooks on; loop state and writes are compared with the "
              "prediction after every token and the property oracle is evaluated on the real output. Recorded random sessions "
              "(random builder-API policies x generated documents) are validated line by line by Trace_Session.tla. "
@@ -23,6 +24,7 @@ def loop_plan(prop):
             if prop in ("C08", "C09"):
                 ctx.mc_replay("nest5", "MC_Loop.tla", "MC_Loop_hist.cfg", "fam_nest.json", props, variants=1, consts={"MaxLen": 5})
                 ctx.mc_replay("nestw7", "MC_Loop.tla", "MC_Loop_hist.cfg", "fam_nestw.json", props, variants=1, consts={"MaxLen": 7})
+            ctx.mc_replay("nestx6", "MC_Loop.tla", "MC_Loop_hist.cfg", "fam_nestx.json", props, variants=1, consts={"MaxLen": 6})
             ctx.trace("sessions", props, sessions=40, calls=25, check_attrs=True, kinds="0,1,2,3,4,5,8",
                       extra=["-nounsafe=false"] if prop in ("C08", "C09") else None)
         else:
@@ -31,6 +33,7 @@ def loop_plan(prop):
             if prop in ("C08", "C09"):
                 ctx.mc_replay("nest7", "MC_Loop.tla", "MC_Loop_hist.cfg", "fam_nest.json", props, variants=1, consts={"MaxLen": 7}, timeout=3000)
                 ctx.mc_replay("nestw8", "MC_Loop.tla", "MC_Loop_hist.cfg", "fam_nestw.json", props, variants=1, consts={"MaxLen": 8}, timeout=3000)
+            ctx.mc_replay("nestx7", "MC_Loop.tla", "MC_Loop_hist.cfg", "fam_nestx.json", props, variants=1, consts={"MaxLen": 7}, timeout=3000)
             ctx.trace("sessions", props, sessions=400, calls=40, timeout=3000, check_attrs=True, kinds="0,1,2,3,4,5,8",
                       extra=["-nounsafe=false"] if prop in ("C08", "C09") else None)
             if prop in ("C01", "C05"):
@@ -121,14 +124,14 @@ def c17_plan(ctx, tier):
     ctx.mc_replay("policy", "MC_Policy.tla", "MC_Policy.cfg", "fam_policy.json", ["C17"], replaycmd="replaypolicy",
                   consts={"MaxLen": 2 if q else 3, "AlgDepth": 1 if q else 2}, timeout=3400)
     ctx.trace("policyfuzz", ["C17"], cmd=["policyfuzz", "-n", "150" if q else "3000"], timeout=3000)
-    return dict(rule=("TLC explores every history of <= MaxLen builder calls (36-call alphabet incl. case variants, toggles, helpers) on two policy "
+    return dict(rule=("TLC explores every history of <= MaxLen builder calls (37-call alphabet incl. case variants, toggles, helpers) on two policy "
                       "instances from 4 constructor pairs and checks Commute, Idempotent, CaseBlind, SwitchLastWrite, RulesAccumulate, Independent; "
                       "each history is replayed on the real API: snapshot of each instance = predicted policy, the untouched instance's snapshot "
                       "never changes, an instance built next to another behaves like the same calls made alone, and all histories reaching the "
-                      "same abstract policy behave identically on 12 probe documents. policyfuzz: random recipes vs permuted / upper-cased / "
+                      "same abstract policy behave identically on 13 probe documents. policyfuzz: random recipes vs permuted / upper-cased / "
                       "repeated / interleaved variants with the same rule set; interleaved constructions are trace-validated (build events with "
                       "snapshots of both instances). non-trivial = distinct abstract policies reached"),
-                exhaustive=False, assumptions=ASSUME_COMMON + ["behavioural equality is judged on 12 probe documents over the union vocabulary"])
+                exhaustive=False, assumptions=ASSUME_COMMON + ["behavioural equality is judged on 13 probe documents over the union vocabulary"])
 
 
 PLANS["C17"] = c17_plan
